@@ -2,7 +2,7 @@
     witnesses of the recorded findings on the binary64 instance (vm_compute on the model that is run
     against the crate bit for bit). *)
 From Coq Require Import ZArith Reals Lra Lia Bool List Arith Psatz Floats.
-From G3 Require Import Model.Num Model.NumF Model.Base Model.Vec Model.Segment Model.Loop Model.Polygon Model.LoopPatched
+From G3 Require Import Model.Num Model.NumF Model.Base Model.Vec Model.Segment Model.Loop Model.Polygon Model.PinnedLoop
   Theory.RInst Theory.LoopGeom Proofs.C05_pointtest.
 Import ListNotations.
 Local Open Scope R_scope.
@@ -56,10 +56,34 @@ Qed.
 
 (** ** the unit square and a query point with a generic cast segment *)
 Definition usq : Loop R := mkLoop [mkV3 0 0 0; mkV3 1 0 0; mkV3 1 1 0; mkV3 0 1 0] (mkV3 0 0 1) true 1 4.
-Definition uq : V := mkV3 (3 / 4) (1 / 4) 0.
+Definition uq : V := mkV3 (4 / 5) (2 / 5) 0.
 
-Lemma test_ray_usq : test_ray usq uq = mkV3 250 250 0.
-Proof. unfold test_ray, usq, uq, vnth. cbn [verts List.nth]. unfold vscale, vsub, vadd. cbn [vx vy vz]. rnum. apply v3_eq; cbn [vx vy vz]; lra. Qed.
+(** the live ray of (4/5, 2/5, 0): direction (3/10, 2/5, 0) of length 1/2, every vertex within 2, hence length
+    max (2 reach, 1000) = 1000 and d = (600, 800, 0) *)
+Lemma reach_upper (g : V -> R) (l : list V) (c : R) : forall acc,
+  acc <= c -> (forall v, In v l -> g v <= c) -> fold_left (fun acc v => fmax acc (g v)) l acc <= c.
+Proof.
+  induction l as [|a l IH]; intros acc Ha Hl; cbn [fold_left]; [exact Ha|].
+  apply IH; [rewrite fmax_R; apply Rmax_lub; [exact Ha | apply Hl; left; reflexivity] | intros v Hv; apply Hl; right; exact Hv].
+Qed.
+Lemma vlen_le (v : V) (c : R) : 0 <= c -> (vlen2 v <= c * c)%R -> vlen v <= c.
+Proof. intros Hc H. unfold vlen. rnum. rewrite <- (sqrt_square c) by exact Hc. apply sqrt_le_1_alt. exact H. Qed.
+Lemma test_ray_usq : test_ray usq uq = mkV3 600 800 0.
+Proof.
+  unfold test_ray, loop_ray.
+  assert (Hr : loop_reach usq uq <= 2).
+  { unfold loop_reach. apply reach_upper; [rnum; lra|]. unfold usq, uq. cbn [verts].
+    intros v [E|[E|[E|[E|[]]]]]; subst v; apply vlen_le; try lra; unfold vlen2, vsub; cbn [vx vy vz]; rnum; lra. }
+  assert (H0 : 0 <= loop_reach usq uq).
+  { unfold loop_reach. destruct (reach_fold (fun v => vlen (vsub v uq)) (verts usq) n0) as [R0 _]. rnum. exact R0. }
+  rewrite fmax_R. rnum. rewrite Rmax_right by lra.
+  unfold usq, uq, vnth. cbn [verts List.nth].
+  assert (Hl : vlen (vsub (mkV3 (4 / 5) (2 / 5) 0) (vscale (vadd (mkV3 0 0 0) (mkV3 1 0 0)) (1 / 2))) = (1 / 2)%R).
+  { unfold vlen, vlen2, vsub, vscale, vadd. cbn [vx vy vz]. rnum.
+    replace ((4 / 5 - (0 + 1) * (1 / 2)) * (4 / 5 - (0 + 1) * (1 / 2)) + (2 / 5 - (0 + 0) * (1 / 2)) * (2 / 5 - (0 + 0) * (1 / 2)) + (0 - (0 + 0) * (1 / 2)) * (0 - (0 + 0) * (1 / 2)))%R
+      with ((1 / 2) * (1 / 2))%R by lra. apply sqrt_square. lra. }
+  rewrite Hl. unfold vscale, vsub, vadd. cbn [vx vy vz]. rnum. apply v3_eq; cbn [vx vy vz]; lra.
+Qed.
 
 Ltac conc := unfold edge_param in *; unfold sideof, orient3, vlen2, vdot, vcross, vsub, vadd, vscale in *; cbn [vx vy vz] in *; rnum.
 
@@ -72,8 +96,7 @@ Proof.
     [ apply contains_point_false;
       try (apply vcompare_false; cbn [vx vy vz]; first [left; first [apply Rabs_ge_l; lra | apply Rabs_ge_r; lra] | right; left; first [apply Rabs_ge_l; lra | apply Rabs_ge_r; lra]]);
       conc; lra
-    | unfold edge_generic; repeat split; try (conc; lra);
-      apply vis_zero_false; left; conc; first [apply Rabs_ge_l; lra | apply Rabs_ge_r; lra] ].
+    | unfold edge_generic; repeat split; conc; lra ].
 Qed.
 
 Lemma usq_gates : lclosed usq = true /\ (2 <= llen usq)%nat /\ vis_zero (lnormal usq) = false /\ 0 < vdot (lnormal usq) (lnormal usq).
@@ -82,7 +105,7 @@ Proof.
   apply vis_zero_false. right. right. unfold usq. cbn [lnormal vz]. apply Rabs_ge_l. lra.
 Qed.
 
-(** the hypotheses of the core theorem hold for the unit square and (3/4, 1/4, 0); the theorem then gives the
+(** the hypotheses of the core theorem hold for the unit square and (4/5, 2/5, 0); the theorem then gives the
     answer [true]: exactly one edge, (1,0)-(1,1), is crossed *)
 Theorem usq_inside : loop_test_point usq uq = Ok true.
 Proof.
@@ -97,14 +120,11 @@ Proof.
   reflexivity.
 Qed.
 
-(** the cast segment of (3/4, 1/4, 0) is long enough; the one of (1/2, 1/10000, 0) -- the witness of finding F7 -- is not *)
-Lemma usq_long_enough : long_enough uq (test_ray usq uq) (verts usq).
+(** the cast segment of the code BEFORE fix 6f318c4 for (1/2, 1/10000, 0) -- the witness of finding F7 (i) -- does not
+    pass the vertex (1,1,0): the length hypothesis that the pinned theorems need fails there *)
+Lemma usq_f7_not_long_enough : ~ long_enough (mkV3 (1 / 2) (1 / 10000) 0) (pinned_ray usq (mkV3 (1 / 2) (1 / 10000) 0)) (verts usq).
 Proof.
-  rewrite test_ray_usq. unfold long_enough, usq, uq. cbn [verts]. intros v [E|[E|[E|[E|[]]]]]; subst v; conc; lra.
-Qed.
-Lemma usq_f7_not_long_enough : ~ long_enough (mkV3 (1 / 2) (1 / 10000) 0) (test_ray usq (mkV3 (1 / 2) (1 / 10000) 0)) (verts usq).
-Proof.
-  intros H. specialize (H (mkV3 1 1 0)). unfold usq, test_ray, vnth in H. cbn [verts List.nth] in H.
+  intros H. specialize (H (mkV3 1 1 0)). unfold usq, pinned_ray, vnth in H. cbn [verts List.nth] in H.
   assert (I : In (mkV3 1 1 0 : V) [mkV3 0 0 0; mkV3 1 0 0; mkV3 1 1 0; mkV3 0 1 0]) by (right; right; left; reflexivity).
   specialize (H I). conc. lra.
 Qed.
@@ -113,13 +133,13 @@ Qed.
 Local Open Scope float_scope.
 (** the binary64 instance is named explicitly (other instances on [float] exist, e.g. the f32 emulation) *)
 Definition ftest := @loop_test_point float NumF.
-Definition ftest_patched := @loop_test_point_patched float NumF.
+Definition ftest_pinned := @loop_test_point_pinned float NumF.
 Definition fsq (s : float) : Loop float := mkLoop [mkV3 0 0 0; mkV3 s 0 0; mkV3 s s 0; mkV3 0 s 0] (mkV3 0 0 1) true (s * s) (4 * s).
-(** (i) ray too short: (0.5, 1e-4, 0) is inside the unit square, 1e-4 away from the midpoint of the first edge *)
-Lemma f7_ray_too_short : ftest (fsq 1) (mkV3 0.5 1e-4 0) = Ok false /\ ftest (fsq 1) (mkV3 0.5 0.5 0) = Ok true.
+(** (i) ray too short (FIXED by 6f318c4): (0.5, 1e-4, 0) is inside the unit square, 1e-4 away from the midpoint of the first
+    edge; the code before the fix answered [false], the live code answers [true] (and [false] for the mirror point outside) *)
+Lemma f7_ray_too_short_pinned : ftest_pinned (fsq 1) (mkV3 0.5 1e-4 0) = Ok false /\ ftest_pinned (fsq 1) (mkV3 0.5 0.5 0) = Ok true.
 Proof. vm_compute. split; reflexivity. Qed.
-(** ... and the proposed repair answers correctly there *)
-Lemma f7_ray_too_short_repaired : ftest_patched (fsq 1) (mkV3 0.5 1e-4 0) = Ok true /\ ftest_patched (fsq 1) (mkV3 0.5 (-1e-4) 0) = Ok false.
+Lemma f7_ray_too_short_live : ftest (fsq 1) (mkV3 0.5 1e-4 0) = Ok true /\ ftest (fsq 1) (mkV3 0.5 (-1e-4) 0) = Ok false.
 Proof. vm_compute. split; reflexivity. Qed.
 (** (ii) on-edge tolerance 1e-5 / |edge|: square of side 0.1, a point 5e-5 OUTSIDE is reported inside *)
 Lemma f7_on_edge_tolerance : ftest (fsq 0.1) (mkV3 0.05 (-5e-5) 0) = Ok true /\ ftest (fsq 0.1) (mkV3 0.05 (-2e-4) 0) = Ok false.
@@ -128,7 +148,7 @@ Proof. vm_compute. split; reflexivity. Qed.
 Definition fquad : Loop float := mkLoop [mkV3 0 0 0; mkV3 1 0 0; mkV3 1.001 1 0; mkV3 0 1 0] (mkV3 0 0 1) true 1 4.
 Lemma f7_on_edge_parameter : ftest fquad (mkV3 1.001 1.009 0) = Ok true /\ ftest fquad (mkV3 1.001 1.02 0) = Ok false.
 Proof. vm_compute. split; reflexivity. Qed.
-(** (iii) vertex grazing: rectangle 0.7 x 0.3, the ray of (0.49, 0.12, 0) is aimed at the vertex (0.7, 0.3, 0) *)
+(** (iii) vertex grazing: rectangle 0.7 x 0.3, the ray of the interior point (0.175, 0.15, 0) is aimed at the vertex (0, 0.3, 0) *)
 Definition frect : Loop float := mkLoop [mkV3 0 0 0; mkV3 0.7 0 0; mkV3 0.7 0.3 0; mkV3 0 0.3 0] (mkV3 0 0 1) true 0.21 2.
-Lemma f7_vertex_grazing : ftest frect (mkV3 0.49 0.12 0) = Ok false /\ ftest frect (mkV3 0.49 0.13 0) = Ok true.
+Lemma f7_vertex_grazing : ftest frect (mkV3 0.175 0.15 0) = Ok false /\ ftest frect (mkV3 0.175 0.16 0) = Ok true.
 Proof. vm_compute. split; reflexivity. Qed.
